@@ -1,0 +1,61 @@
+//go:build verif
+
+// Contracts for the verifier in /verif (comment-only; compiled only with -tags verif).
+
+package modproof
+
+//@ global one != nil && val(one) == 1
+
+//@ define wfMod(pf) = pf.W != nil && pf.A != nil && pf.B != nil && (forall k in 0..80 :: (pf.X[k] != nil && pf.Z[k] != nil))
+
+//@ func isQuadraticResidue
+//@   props C06 C11
+//@   requires X != nil && N != nil
+//@   requires [odd-modulus] val(N) % 2 == 1
+//@   ensures result <==> jacobi(val(X), val(N)) == 1
+
+//@ func (*ProofMod).ValidateBasic
+//@   props C06
+//@   requires pf != nil
+//@   ensures result <==> wfMod(pf)
+//@   loop 0 invariant pf.W != nil && (forall k in 0..$iter :: pf.X[k] != nil)
+//@   loop 1 invariant pf.W != nil && pf.A != nil && pf.B != nil && (forall k in 0..80 :: pf.X[k] != nil) && (forall k in 0..$iter :: pf.Z[k] != nil)
+
+//@ func (*ProofMod).Verify
+//@   props C06 C11 C05
+//@   requires len(Session) <= 1048576
+//@   requires pf != nil ==> (wfMod(pf) ==> (forall k in 0..80 :: (val(pf.X[k]) >= 0 && val(pf.Z[k]) >= 0)))
+//@   ensures result ==> (pf != nil && wfMod(pf) && N != nil)
+//@   ensures [C11.modulus-odd-composite] result ==> (val(N) > 0 && val(N) % 2 == 1 && !probprime(val(N), 30))
+//@   ensures [C11.w-nonresidue-unit-in-range] result ==> (jacobi(val(pf.W), val(N)) != 1 && 0 < val(pf.W) && val(pf.W) < val(N) && gcd(val(pf.W), val(N)) == 1)
+//@   ensures [C11.a-b-81-bits] result ==> (bitlen(val(pf.A)) == 81 && bitlen(val(pf.B)) == 81)
+//@   ensures [C11.responses-in-range] result ==> (forall k in 0..80 :: (0 < val(pf.Z[k]) && val(pf.Z[k]) < val(N) && 0 < val(pf.X[k]) && val(pf.X[k]) < val(N)))
+//@   loop 0 invariant forall k in 0..$iter :: (0 < val(pf.Z[k]) && val(pf.Z[k]) < val(N))
+//@   loop 1 invariant forall k in 0..80 :: (0 < val(pf.Z[k]) && val(pf.Z[k]) < val(N))
+//@   loop 1 invariant forall k in 0..$iter :: (0 < val(pf.X[k]) && val(pf.X[k]) < val(N))
+//@   loop 2 invariant forall k in 0..80 :: (0 < val(pf.Z[k]) && val(pf.Z[k]) < val(N) && 0 < val(pf.X[k]) && val(pf.X[k]) < val(N))
+//@   loop 2 invariant forall k in 0..$iter :: (Y[k] != nil && allocated(Y[k]))
+//@   loop 3 invariant 0 <= i && i <= 80
+//@   loop 3 invariant forall k in 0..80 :: (0 < val(pf.Z[k]) && val(pf.Z[k]) < val(N) && 0 < val(pf.X[k]) && val(pf.X[k]) < val(N) && Y[k] != nil)
+//@   loop 4 invariant 0 <= i
+//@   loop 4 invariant forall k in 0..80 :: (0 < val(pf.Z[k]) && val(pf.Z[k]) < val(N) && 0 < val(pf.X[k]) && val(pf.X[k]) < val(N))
+
+//@ func (*ProofMod).Verify$1
+//@   props C06 C09
+//@   requires 0 <= i && i < 80 && pf != nil && wfMod(pf) && N != nil && val(N) > 0 && modN == N && Y[i] != nil && chs != nil
+//@   modifies sent(chs)
+//@   ensures sent(chs) == old(sent(chs)) + 1
+
+//@ func (*ProofMod).Verify$2
+//@   deadpoints 4
+//@   props C06 C09
+//@   requires 0 <= i && i < 80 && pf != nil && wfMod(pf) && modN != nil && val(modN) > 0 && Y[i] != nil && chs != nil
+//@   modifies sent(chs)
+//@   ensures sent(chs) == old(sent(chs)) + 1
+
+//@ func NewProofFromBytes
+//@   props C06 C10
+//@   ensures result1 != nil ==> result0 == nil
+//@   ensures [C10.arity] result1 == nil ==> (len(bzs) == 163 && result0 != nil && fresh(result0) && result0.W != nil && result0.A != nil && result0.B != nil)
+//@   loop 0 invariant len(bis) == len(bzs) && fresh(bis)
+//@   loop 0 invariant forall k in 0..$iter :: (bis[k] != nil && fresh(bis[k]) && allocated(bis[k]) && val(bis[k]) >= 0)
